@@ -254,6 +254,7 @@ func runTCPClient(phases []phase) error {
 		rec.WaitClosed(bound)
 	}()
 	var causes []string
+	var slow []bool
 	accepted := 0
 	var live int32
 	for pi, ph := range phases {
@@ -261,6 +262,7 @@ func runTCPClient(phases []phase) error {
 			time.Sleep(ph.down)
 			continue
 		}
+		listenAt := time.Now() // the connection of this phase cannot be older than this
 		l, err := net.Listen("tcp4", sim.Addr(port))
 		if err != nil {
 			return fmt.Errorf("BROKEN: listen: %v", err)
@@ -306,6 +308,9 @@ func runTCPClient(phases []phase) error {
 		case "idle":
 			causes = append(causes, "idle")
 		}
+		// on a busy machine the harness itself can take longer than the idle timeout to get from accepting
+		// to closing; the node is then right to expire the connection first
+		slow = append(slow, ph.kind != "idle" && time.Since(listenAt) > c14Idle*8/10)
 		closes := 0
 		ok := rec.WaitFor(bound, func(recs []sim.Rec) bool {
 			closes = 0
@@ -335,6 +340,10 @@ func runTCPClient(phases []phase) error {
 		}
 		if ci >= len(causes) {
 			break
+		}
+		if slow[ci] && isTimeout(e.err) {
+			ci++
+			continue
 		}
 		switch causes[ci] {
 		case "eof":
@@ -404,17 +413,19 @@ func runUDPClient(phases []phase) error {
 		var firstFrom time.Time
 		stalled := false
 		last := time.Now()
+		var lastAnswer time.Time
 		for time.Since(start) < 3*c14Idle+c14Reconnect*3 {
 			pc.SetReadDeadline(time.Now().Add(c14Idle / 4)) //nolint:errcheck
 			_, addr, rerr := pc.ReadFrom(buf)
-			if time.Since(last) > c14Idle/2 {
-				stalled = true
+			if time.Since(last) > c14Idle/2 || stalls.StalledBetween(last, time.Now()) {
+				stalled = true // the harness or the whole process was held up: the "stayed open" verdict is inconclusive
 			}
 			last = time.Now()
 			if rerr == nil {
 				if firstFrom.IsZero() {
 					firstFrom = time.Now()
 				}
+				lastAnswer = time.Now()                                        // before the write: the node cannot have read this answer earlier
 				pc.WriteTo(tagged(1, pi, "debug", true, nil, 0).Bytes(), addr) //nolint:errcheck
 			}
 		}
@@ -432,7 +443,9 @@ func runUDPClient(phases []phase) error {
 			}
 		}
 		// now fall silent but keep the socket: idle expiry with a timeout error
-		silentFrom := time.Now()
+		// the silence is measured from the last answer, not from the end of the loop: on a busy machine the
+		// two can be far apart, and the node's idle clock starts when it reads that answer
+		silentFrom := lastAnswer
 		closesNow := 0
 		for _, e := range lifecycle(rec.Snapshot()) {
 			if !e.open {
@@ -660,14 +673,15 @@ func TestC14Clients(t *testing.T) {
 			wg.Add(1)
 			go func(s *sub) {
 				defer wg.Done()
-				switch s.kind {
-				case "tcp-client":
-					s.err = runTCPClient(s.phases)
-				case "udp-client":
-					s.err = runUDPClient(s.phases)
-				default:
-					s.err = runSerial(s.phases)
-				}
+				s.err = watchdog(scenarioLimit, func() error {
+					switch s.kind {
+					case "tcp-client":
+						return runTCPClient(s.phases)
+					case "udp-client":
+						return runUDPClient(s.phases)
+					}
+					return runSerial(s.phases)
+				})
 			}(s)
 		}
 		wg.Wait()
@@ -754,6 +768,7 @@ func runServer(udp bool, peers []string) error {
 			}
 			r := &res{label: p.LocalLabel(udp), kind: kind}
 			results[i] = r
+			r.silentAt = time.Now()                                     // taken before the only datagram: the node cannot have read it earlier
 			p.Send(tagged(byte(i+1), 0, "debug", true, nil, 0).Bytes()) //nolint:errcheck
 			switch kind {
 			case "leave":
@@ -761,7 +776,6 @@ func runServer(udp bool, peers []string) error {
 				p.Close()
 				return
 			case "silent":
-				r.silentAt = time.Now()
 				time.Sleep(c14Idle*3 + 200*time.Millisecond)
 			case "keepalive":
 				end := time.Now().Add(5 * c14Idle)
@@ -769,8 +783,8 @@ func runServer(udp bool, peers []string) error {
 				k := 1
 				for time.Now().Before(end) {
 					time.Sleep(c14Idle / 4)
-					if time.Since(last) > c14Idle/2 {
-						r.stalled = true // the sender itself was held up: inconclusive
+					if time.Since(last) > c14Idle/2 || stalls.StalledBetween(last, time.Now()) {
+						r.stalled = true // the sender or the whole process was held up: inconclusive
 					}
 					last = time.Now()
 					p.Send(tagged(byte(i+1), k, "debug", true, nil, 0).Bytes()) //nolint:errcheck
@@ -807,6 +821,9 @@ func runServer(udp bool, peers []string) error {
 					cerr = ev.Error
 				}
 			}
+		}
+		if r.kind == "keepalive" && r.stalled && opens >= 1 {
+			continue // an expiry and a second channel are legitimate when the keepalives were held up
 		}
 		if opens != 1 {
 			return fmt.Errorf("peer %d (%s, %s): %d open events, want its own single channel (server must keep accepting)", i, r.kind, r.label, opens)
@@ -865,7 +882,7 @@ func TestC14Servers(t *testing.T) {
 			wg.Add(1)
 			go func(s *sub) {
 				defer wg.Done()
-				s.err = runServer(s.udp, s.peers)
+				s.err = watchdog(scenarioLimit, func() error { return runServer(s.udp, s.peers) })
 			}(s)
 		}
 		wg.Wait()
